@@ -106,7 +106,7 @@ fn shard(seed: u64, shard: u64, tier: Tier) -> Tally {
     for carrier in [Carrier::Header, Carrier::Query] {
         // singles
         for a in 0..n {
-            for _ in 0..tier.n(2, 20) {
+            for _ in 0..tier.n(10, 40) {
                 one(&mut t, seed, "single", shard, i, &[a], carrier);
                 i += 1;
             }
@@ -114,14 +114,14 @@ fn shard(seed: u64, shard: u64, tier: Tier) -> Tally {
         // all pairs
         for a in 0..n {
             for b in (a + 1)..n {
-                for _ in 0..tier.n(1, 6) {
+                for _ in 0..tier.n(4, 12) {
                     one(&mut t, seed, "pair", shard, i, &[a, b], carrier);
                     i += 1;
                 }
             }
         }
         // random subsets of 3..6
-        for _ in 0..tier.n(200, 6000) {
+        for _ in 0..tier.n(1500, 12_000) {
             let mut r = Rng::keyed(seed, "C13", "subset", shard, i);
             let k = 3 + r.usize_below(4);
             let mut idx: Vec<usize> = (0..n).collect();
